@@ -36,8 +36,12 @@ THEOREMS = [
     'C06Regex.splitLines_regex', 'C06Regex.rxSplit_noNL', 'C06Regex.loopL_noNL', 'C06Regex.loopL_regex', 'C06Regex.scriptLines_regex',
     'C06Regex.scriptLines_noNL', 'C06Regex.stepLogical_eq_With', 'C06Regex.parseScript_is_regex_driven',
     'C06Regex.parseScript_text_is_regex_driven',
+    'C06Regex.litSeq_m', 'C06Regex.altsLit_m', 'C06Regex.ident_first', 'C06Regex.opToken', 'C06Regex.charToken',
+    'C06Regex.binOp_regex', 'C06Regex.unaryOp_regex', 'C06Regex.groupOpen_regex', 'C06Regex.close_regex', 'C06Regex.comma_regex',
+    'C06Regex.variable_regex', 'C06Regex.funcOpen_regex', 'C06Regex.parseExprLW_ex', 'C06Regex.exS_eq_rxS',
+    'C06Regex.parseExpr_is_regex_driven_partial', 'C06Regex.parseScript_fully_regex_driven_partial',
 ]
-LEAN_TARGETS = ['BareProofs.C06RegexPins', 'BareProofs.C06Regex', 'BareProofs.C06Regex2', 'BareProofs.C06Regex3', 'BareProofs.C06Regex4', 'BareProofs.C06Regex5', 'BareProofs.C06Regex6']
+LEAN_TARGETS = ['BareProofs.C06RegexPins', 'BareProofs.C06Regex', 'BareProofs.C06Regex2', 'BareProofs.C06Regex3', 'BareProofs.C06Regex4', 'BareProofs.C06Regex5', 'BareProofs.C06Regex6', 'BareProofs.C06Regex7']
 EXTRA_TARGETS = ['drv_c06x']
 GEN = ['Regex']
 
